@@ -104,7 +104,9 @@ VExecOp(m, v, op, src) ==
        [] op = "release" -> VPush([m EXCEPT !.want[v] = FALSE], VIt("vu", v, src))
        [] op = "tap" -> VPush(VPush([m EXCEPT !.want[v] = FALSE], VIt("vd", v, src)), VIt("vu", v, src))
        [] op = "toggle" ->
-            IF mac THEN VPush(m, VIt("vd", v, src))
+            \* soft zone: a macro virtual key has no held state to toggle (the code presses it, or - since
+            \* cc71619 - releases it when a press of it is still queued): a possible play, not judged
+            IF mac THEN VPush(m, VIt("vd", v, "soft"))
             ELSE VPush([m EXCEPT !.want[v] = ~w],
                        VIt(IF w THEN "vu" ELSE "vd", v, src))
        [] OTHER -> Fail(m, "C18: unknown virtual key operation")
@@ -171,7 +173,7 @@ VDequeue(m) ==
                m |-> CASE vk.kind = "key" -> IF m.down[it.i] THEN m1 ELSE VExpect(m1, vk.o, "d", it.src)
                        [] vk.kind = "lwh" -> [m1 EXCEPT !.lst = Append(@, it.i)]
                        [] vk.kind = "macro" ->
-                            IF \E j \in DOMAIN m.plays : m.plays[j].v = it.i
+                            IF it.src = "soft" \/ \E j \in DOMAIN m.plays : m.plays[j].v = it.i
                             THEN [m1 EXCEPT !.mute = @ \cup {it.i}, !.plays = Append(@, [v |-> it.i, pos |-> 0]),
                                             !.pend = SelectSeq(@, LAMBDA x : x.c \notin SeqToSet(vk.outs))]
                             ELSE [m1 EXCEPT !.plays = Append(@, [v |-> it.i, pos |-> 0])]
@@ -286,7 +288,8 @@ VAgePend(m) ==
   IF bad # 0 THEN Fail(m, VOverdueMsg(m, m.pend[bad]))
   ELSE [m EXCEPT !.pend = [i \in DOMAIN @ |-> [@[i] EXCEPT !.age = @ + 1]]]
 
-VBusy(m) == m.q # <<>> \/ m.cq # <<>> \/ m.seqs # <<>> \/ m.plays # <<>> \/ \E v \in DOMAIN m.hf : m.hf[v] > 0
+VBusy(m) == m.q # <<>> \/ m.cq # <<>> \/ m.seqs # <<>> \/ (\E j \in DOMAIN m.plays : m.plays[j].v \notin m.mute)
+            \/ \E v \in DOMAIN m.hf : m.hf[v] > 0
 VQuiet(m) == ~VBusy(m) /\ m.pend = <<>>
 
 MonIn(m, r) ==
